@@ -242,6 +242,59 @@ def extra_designs():
         return T
     yield ("det/history/opaque-parameter-values", opaque_params)
 
+    def flattened():
+        # hdl21.flatten over a hierarchy that leaves several internal nets at several levels
+        from hdl21.flatten import flatten
+        leaf = h.Module(name="FlLeaf")
+        leaf.a, leaf.b = h.Port(), h.Port()
+        for k in range(5):
+            leaf.add(h.Signal(), name=f"n{k}")
+        prev = leaf.a
+        for k in range(5):
+            leaf.add(h.R(r=k + 1)(p=prev, n=leaf.get(f"n{k}")), name=f"r{k}")
+            prev = leaf.get(f"n{k}")
+        leaf.rl = h.R(r=9)(p=prev, n=leaf.b)
+        mid = h.Module(name="FlMid")
+        mid.a, mid.b = h.Port(), h.Port()
+        mid.x, mid.y, mid.z = h.Signals(3)
+        mid.l1, mid.l2, mid.l3, mid.l4 = leaf(a=mid.a, b=mid.x), leaf(a=mid.x, b=mid.y), leaf(a=mid.y, b=mid.z), leaf(a=mid.z, b=mid.b)
+        top = h.Module(name="FlTop")
+        top.p, top.q = h.Port(), h.Port()
+        top.w = h.Signal()
+        top.m1, top.m2 = mid(a=top.p, b=top.w), mid(a=top.w, b=top.q)
+        return flatten(top)
+    yield ("det/history/flattened-hierarchy", flattened)
+
+    def targetless_compile():
+        # several PDKs registered, none set as default: a compile without a target is refused - the same way in every process
+        import hdl21.pdk as hp
+        import hdl21.pdk.sample_pdk as _sp  # noqa: F401
+        from pyvc import loader
+        for d_ in ("Sky130", "Gf180", "Asap7"):
+            p_ = os.path.join(loader.REPO, "pdks", d_)
+            if p_ not in sys.path:
+                sys.path.append(p_)
+        import sky130_hdl21, gf180_hdl21, asap7_hdl21  # noqa: F401,E401
+        old = hp.pdk._mgr.default
+        hp.pdk._mgr.default = None
+        m = h.Module(name="Targetless")
+        m.d, m.g, m.s, m.b = h.Signals(4)
+        m.n = h.Nmos()(d=m.d, g=m.g, s=m.s, b=m.b)
+        try:
+            hp.compile(m)
+            outcome = "compiled"
+        except Exception as e:
+            outcome = type(e).__name__
+        finally:
+            hp.pdk._mgr.default = old
+        top = h.Module(name="TargetlessTop")
+        top.add(h.Signal(), name=f"outcome_{outcome}")
+        top.add(h.Signal(), name="device_" + "".join(c_ if c_.isalnum() else "_" for c_ in str(getattr(getattr(m.n.of, "module", None), "name", "generic"))))
+        if outcome == "compiled":
+            top.i = m()
+        return top
+    yield ("det/history/targetless-compile-with-several-pdks", targetless_compile)
+
     def imported_cells():
         # "load a package, use what it declares": the design under test is what from_proto makes of a package declaring a cell
         # that packages imported earlier in the process may have declared differently
